@@ -17,6 +17,14 @@ CHECKS = {
     ),
 }
 
+CHECKS["C09"] = dict(
+    category="fault_enumeration",
+    technique="exhaustive fault enumeration (every byte offset x cause, every write/flush call, every frame boundary) combined with deviation-bounded schedule exploration (DX) of the real Session under virtual time",
+    text="For client and server role: EOF / reset / unexpected-EOF at every byte offset of the peer's stream, failure at every transport write call and flush, an Alert frame at every frame boundary, keep-alive silence, owner close() (once, twice, racing EOF, failing or hanging shutdown) and a stalled peer, each with <= B scheduling deviations (quick 0-1, thorough 1-2), with a blocked reader, a pending open and an in-flight writer present; the oracle demands that everything completes within a 1 h virtual horizon, the session is visibly closed, its transport shut down, later writes/opens fail and no background task survives.",
+    note="Trusted: vpipe environment assumptions (DESIGN 4.2), 'forever' = 1 h of virtual time without external events, scheduling points only at named hooks and transport calls. The stalled-peer class is an open known finding (KNOWN_FINDINGS.json).",
+    design="DESIGN.md §6 C09",
+)
+
 NOT_YET = {
 }
 
